@@ -102,8 +102,10 @@ asg!(AddAssign add_assign "+", SubAssign sub_assign "-", BitAndAssign bitand_ass
      MulAssign mul_assign "*", DivAssign div_assign "/", RemAssign rem_assign "%", ShrAssign shr_assign ">>", ShlAssign shl_assign "<<");
 impl Not for Tag { type Output = Tag; fn not(self) -> Tag { Tag(format!("!{}", self.0)) } }
 impl Neg for Tag { type Output = Tag; fn neg(self) -> Tag { Tag(format!("-{}", self.0)) } }
-impl core::iter::Sum for Tag { fn sum<I: Iterator<Item = Tag>>(i: I) -> Tag { i.fold(Tag("S0".into()), |a, b| a + b) } }
-impl core::iter::Product for Tag { fn product<I: Iterator<Item = Tag>>(i: I) -> Tag { i.fold(Tag("P1".into()), |a, b| a * b) } }
+// the field type's own Sum / Product is *not* a fold with `+` / `*` over a non-empty iterator: the derive must use it for the empty
+// sum / product only and fold with the derived operator from there (seed C10-l)
+impl core::iter::Sum for Tag { fn sum<I: Iterator<Item = Tag>>(i: I) -> Tag { let v: Vec<String> = i.map(|t| t.0).collect(); if v.is_empty() { Tag("S0".into()) } else { Tag(format!("sum[{}]", v.join(","))) } } }
+impl core::iter::Product for Tag { fn product<I: Iterator<Item = Tag>>(i: I) -> Tag { let v: Vec<String> = i.map(|t| t.0).collect(); if v.is_empty() { Tag("P1".into()) } else { Tag(format!("product[{}]", v.join(","))) } } }
 '''
 
 
